@@ -651,7 +651,9 @@ T2_TERMS = {
 
 
 def _dval(names):
-    return ("D",) + tuple(sorted(names))
+    """value of the t2_1 denominator e_a + e_b - e_i - e_j on the indices (i, j, a, b): symmetric within each pair only"""
+    names = list(names)
+    return ("D", tuple(sorted(names[:2])), tuple(sorted(names[2:])))
 
 
 def r11b_t2_1(ctx):
